@@ -61,3 +61,35 @@ class Comm(Model):
 
     def read(self, key):
         return self.sent
+
+
+class GcodeTable(Model):
+    """extendedExcludeGcodes: dict gcode -> ExcludedGcode.  get(gcode) returns None or an entry whose mode is one
+    of the four configured modes (asserted by ExcludedGcode.__init__)."""
+
+    clsname = "dict"
+
+    def __init__(self, program, ctx):
+        import z3
+        self.program = program
+        self.oid = next_oid()
+        # the configuration's answer for the code being processed (one lookup per call)
+        self.mode = ctx.string("entry.mode")
+        self.isnone = ctx.bool("entry.isnone")
+        ctx.assume(z3.Or(*[self.mode == z3.StringVal(m) for m in ("exclude", "first", "last", "merge")]))
+
+    def call_method(self, interp, name, args, kwargs, node):
+        if name == "get":
+            from .values import Obj, OptObj
+            e = Obj(self.program.find_class("ExcludedGcode"), {"gcode": args[0], "mode": self.mode, "description": "configured"})
+            return OptObj(self.isnone, e)
+        raise Unsupported("extendedExcludeGcodes.%s" % name, node)
+
+    def copy(self, memo=None):
+        return self
+
+    def struct_eq(self, other):
+        return self is other
+
+    def read(self, key):
+        return self
